@@ -219,6 +219,16 @@ func init() {
 	}
 	// bytes.Compare / key ordering: injective order embedding
 	instanceAxioms["b.ord"] = func(t *Term) []*Term { return nil }
+	// strings.TrimSpace as an uninterpreted function: never longer than its argument, idempotent, empty for the
+	// empty string; a non-empty string may well trim to the empty one (all white space)
+	instanceAxioms["str.trim"] = func(t *Term) []*Term {
+		s := t.Args[0]
+		return []*Term{
+			ILe(strLen(t), strLen(s)),
+			Implies(strEq(s, StrLit("")), strEq(t, StrLit(""))),
+			Implies(Eq(strLen(t), strLen(s)), strEq(t, s)),
+		}
+	}
 	instanceAxioms["str.u64"] = func(t *Term) []*Term {
 		// decimal rendering is injective
 		return []*Term{Eq(App("str.u64inv", t.Args[0].S, t), t.Args[0])}
